@@ -178,6 +178,12 @@ def r1_validate_before_mutate(run, w):
       checks["unique"] = (n, None)
   run.ob(R1, fn.qualname, "if require and len(set(zip(*<require values>))) < length: raise",
          "repeated `require` keys are rejected", "unique" in checks, fi=fn.fi)
+  missing = [k for k in ("on_many", "empty", "lengths", "unique") if k not in checks]
+  unclassified = [n for n in ifs if n.id not in {c[0].id for c in checks.values()}]
+  if missing and unclassified:
+    raise AnalysisError("BulkAddOrUpdateRecord: check(s) %s not recognised while %d raising "
+                        "branch(es) could not be classified (e.g. `%s`)"
+                        % (missing, len(unclassified), short(unclassified[0].stmt.test, 60)))
   # each check dominates every mutating call
   for k in ("on_many", "empty", "lengths", "unique"):
     if k not in checks:
